@@ -804,6 +804,8 @@ namespace internal
 		template<typename... Items>
 		void pvSort(const Column<Items>&... columns)
 		{
+			if (!mRaws.IsEmpty())
+				VersionKeeper::Check();
 			static const size_t columnCount = sizeof...(columns);
 			std::array<size_t, columnCount> offsets = {{ mColumnList->GetOffset(columns)... }};
 			auto rawLessFunc = [&offsets] (Raw* raw1, Raw* raw2)
@@ -840,6 +842,8 @@ namespace internal
 		template<typename... Items>
 		void pvGroup(const Column<Items>&... columns)
 		{
+			if (!mRaws.IsEmpty())
+				VersionKeeper::Check();
 			static const size_t columnCount = sizeof...(columns);
 			std::array<size_t, columnCount> offsets = {{ mColumnList->GetOffset(columns)... }};
 			auto hashFunc = [&offsets] (Raw* raw)
@@ -898,6 +902,8 @@ namespace internal
 		template<bool includeEqual, typename... Items>
 		size_t pvBinarySearch(const Equality<Items>&... equals) const
 		{
+			if (!mRaws.IsEmpty())
+				VersionKeeper::Check();
 			static const int bound = includeEqual ? -1 : 0;
 			static const size_t columnCount = sizeof...(equals);
 			std::array<size_t, columnCount> offsets =
